@@ -27,6 +27,7 @@ def run(ctx: Context) -> None:
     ctx.rule(hp)
     ctx.rule(wrappers)
     ctx.rule(moments)
+    ctx.rule(no_state)
 
 
 def hp(ctx: Context) -> None:
@@ -149,3 +150,36 @@ def moments(ctx: Context) -> None:
     f2 = ctx.func(f"{M}:get_mom_ts")
     ok = any(any(isinstance(t, FuncInfo) and t.name == "get_mom_ts_1d" for t in ctx.prog.resolve_call(f2, c)) for c in calls_in(f2.node, scope_only=False))
     ctx.check(ok, "R3.vector", "get_mom_ts:uses-1d", "get_mom_ts maps get_mom_ts_1d over the coordinates", "get_mom_ts does not use get_mom_ts_1d", f2, f2.node)
+
+
+def no_state(ctx: Context) -> None:
+    """The helpers are functions of their arguments: no module-level cache / global written by utils/time_series.py."""
+    prog = ctx.prog
+    mod = "black_it.utils.time_series"
+    consts = prog.module_consts.get(mod, {})
+    n = 0
+    for f in prog.all_functions():
+        if f.module.name != mod:
+            continue
+        n += 1
+        local_names = set(f.params) | {x.id for x in walk_scope(f.node) if isinstance(x, ast.Name) and isinstance(x.ctx, ast.Store)}
+        for x in walk_scope(f.node):
+            if isinstance(x, ast.Global):
+                ctx.fail("R5.no-state", f"{f.name}:global:{','.join(x.names)}", f"`{src(x)}`: the helper keeps state between calls", f, x)
+            tg = None
+            if isinstance(x, ast.Assign):
+                tg = x.targets[0]
+            elif isinstance(x, (ast.AugAssign, ast.AnnAssign)):
+                tg = x.target
+            if isinstance(tg, ast.Subscript) and isinstance(tg.value, ast.Name) and tg.value.id in consts and tg.value.id not in local_names:
+                ctx.fail("R5.no-state", f"{f.name}:module-cache:{tg.value.id}", f"`{src(x)[:80]}` fills the module-level `{tg.value.id}`: later calls reuse what an earlier call computed "
+                         "(a result cached under a key that omits an argument is wrong for the other argument values)", f, x)
+            if isinstance(x, ast.Call) and isinstance(x.func, ast.Attribute) and x.func.attr in ("setdefault", "update", "append", "add") and isinstance(x.func.value, ast.Name) \
+                    and x.func.value.id in consts and x.func.value.id not in local_names:
+                ctx.fail("R5.no-state", f"{f.name}:module-cache:{x.func.value.id}", f"`{src(x)[:80]}` mutates module-level `{x.func.value.id}`", f, x)
+        for d in f.node.decorator_list:
+            nm = (dotted(d) or (dotted(d.func) if isinstance(d, ast.Call) else "") or "").split(".")[-1]
+            if nm in ("lru_cache", "cache"):
+                ctx.fail("R5.no-state", f"{f.name}:decorator:{nm}", f"@{nm} on {f.name}: results are cached across calls", f, d)
+    ctx.floor("R5", "functions of utils/time_series.py", n, 6)
+    ctx.ok("R5.no-state", "time_series:scanned", f"{n} helpers write no module-level state")
